@@ -20,7 +20,9 @@
 (***************************************************************************)
 EXTENDS Containment, Json
 
-CONSTANT Cfg      \* "A" one root; "B" two sibling roots; "C" nested roots; "D" one root, spelled with dot segments / trailing slash
+CONSTANT Cfg      \* "A" one root; "B" two sibling roots; "C" nested roots (inner first); "D" one root, spelled with dot
+                  \* segments / trailing slash; "E" three roots: outer, the root nested in it, a sibling; "R" RELATIVE
+                  \* roots (the process' working directory is the model's file-system root)
 
 RECURSIVE Tree(_)
 \* the files (relative) of a directory subtree of remaining depth d
@@ -42,6 +44,8 @@ WorldRoots ==
     [] Cfg = "B" -> <<Tok(P1 \o <<"a">>), Tok(P1 \o <<"sub">>) \o <<"/">>>>
     [] Cfg = "C" -> <<Tok(P1 \o <<"a", "sub">>), Tok(P1 \o <<"a">>)>>
     [] Cfg = "D" -> <<Tok(P1 \o <<"sub", "..", ".", "a">>) \o <<"/", "/">>>>
+    [] Cfg = "E" -> <<Tok(P1 \o <<"a">>), Tok(P1 \o <<"a", "sub">>) \o <<"/">>, Tok(P1 \o <<"sub">>)>>
+    [] Cfg = "R" -> <<Interleave(P1 \o <<"a">>), <<".", "/">> \o Interleave(P1 \o <<"sub">>) \o <<"/">>>>
 WorldModDir == Tok(P1 \o <<"m">>) \o <<"/">>
 WorldTemplFile == P1 \o <<"a", "a">>
 \* calling templates (put_string'ed under these URIs): depth 0..3 below the root, plus spellings
